@@ -298,3 +298,175 @@ def backend_programs(tier):
     ps += f12_precision(tier)
     ps += f14_config(tier)
     return ps
+
+
+# ---------------------------------------------------------------------------
+# front-end families (C03): programs that may or may not be safe; the front
+# end must reject every unsafe one
+
+
+def fe_access(tier):
+    """accesses directly / through window / through window of window / through callee"""
+    out = []
+    k = 0
+    idxs = ["i", "i + 1", "i - 1", "n - 1 - i", "n - i", "2 * i", "i / 2", "(i - 1) % 2", "i + k"]
+    bounds = [("0", "n"), ("1", "n"), ("0", "n - 1"), ("0", "n + 1")]
+    guards = ["", "i + 1 < n", "i > 0", "i <= n"]
+    vias = ["direct", "window", "wow", "callee_win", "callee_tensor"]
+    ops = ["write", "read", "reduce"]
+    if tier == "quick":
+        idxs = ["i", "i + 1", "i - 1", "n - i", "2 * i", "(i - 1) % 2", "i + k"]
+        guards = ["", "i + 1 < n", "i > 0"]
+        ops = ["write", "read"]
+    for ix, (lo, hi), g, via, op in itertools.product(idxs, bounds, guards, vias, ops):
+        if via in ("callee_win", "callee_tensor") and (g or op == "reduce"):
+            continue
+        acc_t = {"write": "{B}[{I}] = 1.0", "read": "y[0] = {B}[{I}]", "reduce": "{B}[{I}] += 1.0"}[op]
+        pre = []
+        callee = ""
+        if via == "direct":
+            stmt = acc_t.format(B="x", I=ix)
+        elif via == "window":
+            pre = ["w = x[0:n]"]
+            stmt = acc_t.format(B="w", I=ix)
+        elif via == "wow":
+            pre = ["w = x[0:n]", "v = w[0:n]"]
+            stmt = acc_t.format(B="v", I=ix)
+        else:
+            ptype = "[f32][m]" if via == "callee_win" else "f32[m]"
+            cbody = {"write": "d[j] = 1.0", "read": "o[0] = d[j]"}[op]
+            callee = f"""
+@proc
+def fe_cal_{k}(m: size, j: index, d: {ptype}, o: f32[1]):
+    assert j >= 0
+    assert j < m
+    {cbody}
+"""
+            stmt = f"fe_cal_{k}(n, {ix}, x, y)"
+        body = stmt
+        if g:
+            body = f"if {g}:\n            {stmt}"
+        prel = "".join(f"    {p}\n" for p in pre)
+        src = callee + f"""
+@proc
+def fe_{k}(n: size, k: index, x: f32[n], y: f32[1]):
+    assert k >= 0
+    assert k <= 1
+{prel}    for i in seq({lo}, {hi}):
+        {body}
+"""
+        out.append(Prog(f"fe_{k}", src, f"fe_{k}", "FE1", (ix, lo, hi, g, via, op)))
+        k += 1
+    return out
+
+
+def fe_windows(tier):
+    """window extents and points vs. the underlying buffer"""
+    out = []
+    k = 0
+    wins = ["x[0:n]", "x[1:n]", "x[0:n + 1]", "x[1:n + 1]", "x[0:n - 1]", "x[n - 1:n]", "x[n:n]", "x[2:1]"]
+    accs = ["0", "n - 1", "n - 2", "n"]
+    for w, a, op in itertools.product(wins, accs, ["write", "read"]):
+        stmt = f"w[{a}] = 1.0" if op == "write" else f"y[0] = w[{a}]"
+        src = f"""
+@proc
+def few_{k}(n: size, x: f32[n], y: f32[1]):
+    assert n >= 2
+    w = {w}
+    {stmt}
+"""
+        out.append(Prog(f"few_{k}", src, f"few_{k}", "FE2", (w, a, op)))
+        k += 1
+    # 2-D windows with points
+    for w, a in itertools.product(["x[1, 0:n]", "x[n, 0:n]", "x[0:2, n - 1]", "x[0:3, 0]", "x[2, 0:n]"], ["0", "1", "n - 1", "n"]):
+        src = f"""
+@proc
+def few_{k}(n: size, x: f32[2, n], y: f32[1]):
+    w = {w}
+    w[{a}] = 1.0
+"""
+        out.append(Prog(f"few_{k}", src, f"few_{k}", "FE2", (w, a)))
+        k += 1
+    return out
+
+
+def fe_calls(tier):
+    """callee assertions, size arguments, shapes, aliasing"""
+    out = []
+    k = 0
+    sizes = ["n", "n - 1", "n / 2", "n + 1", "2 * n", "n % 2 + 1", "n % 2"]
+    asserts = ["", "m <= 4", "m % 2 == 0", "m >= 2"]
+    for sz, asr in itertools.product(sizes, asserts):
+        a = f"    assert {asr}\n" if asr else ""
+        src = f"""
+@proc
+def fc_cal_{k}(m: size, d: [f32][m]):
+{a}    for j in seq(0, m):
+        d[j] = 1.0
+
+@proc
+def fc_{k}(n: size, x: f32[2 * n + 2]):
+    fc_cal_{k}({sz}, x[0:{sz}])
+"""
+        out.append(Prog(f"fc_{k}", src, f"fc_{k}", "FE3", (sz, asr)))
+        k += 1
+    # shape mismatch / stride assertion / aliasing
+    extra = [
+        ("shape", "fcs(n, x[0:n - 1])", "m: size, d: [f32][m]", ""),
+        ("shape2", "fcs(n, x[0:n + 1])", "m: size, d: [f32][m]", ""),
+        ("stride-ok", "fcs(n, z[0, 0:n])", "m: size, d: [f32][m]", "assert stride(d, 0) == 1"),
+        ("stride-bad", "fcs(2, z[0:2, 0])", "m: size, d: [f32][m]", "assert stride(d, 0) == 1"),
+    ]
+    for tag, call, sig, asr in extra:
+        a = f"    {asr}\n" if asr else ""
+        src = f"""
+@proc
+def fcs({sig}):
+{a}    for j in seq(0, m):
+        d[j] = 1.0
+
+@proc
+def fc_{k}(n: size, x: f32[n + 1], z: f32[2, n]):
+    {call}
+"""
+        out.append(Prog(f"fc_{k}", src, f"fc_{k}", "FE3", (tag,)))
+        k += 1
+    alias = ["f2(x, x)", "f2(x[0:2], x[2:4])", "f2(x[0:3], x[2:4])", "f2(x[0:2], x[1:3])", "f2(w, x[0:2])", "f2(w, x[2:4])", "f2(x[0:2], y[0:2])"]
+    for call in alias:
+        src = f"""
+@proc
+def f2(a: [f32][2], b: [f32][2]):
+    a[0] = b[1]
+
+@proc
+def fc_{k}(x: f32[4], y: f32[4]):
+    w = x[0:2]
+    {call}
+"""
+        if call == "f2(x, x)":
+            src = src.replace("[f32][2]", "[f32][4]")
+        out.append(Prog(f"fc_{k}", src, f"fc_{k}", "FE4", (call,)))
+        k += 1
+    return out
+
+
+def fe_loops(tier):
+    out = []
+    k = 0
+    for lo, hi in [("n", "2"), ("2", "n"), ("0", "n - 2"), ("n", "n"), ("k", "n"), ("0", "k"), ("n / 2", "n"), ("n", "n / 2"), ("1", "n % 2")]:
+        src = f"""
+@proc
+def fl_{k}(n: size, k: index, x: f32[n + 4]):
+    assert k >= -1
+    assert k <= 1
+    for i in seq({lo}, {hi}):
+        x[0] = 1.0
+"""
+        out.append(Prog(f"fl_{k}", src, f"fl_{k}", "FE5", (lo, hi)))
+        k += 1
+    return out
+
+
+def frontend_programs(tier):
+    ps = fe_access(tier) + fe_windows(tier) + fe_calls(tier) + fe_loops(tier)
+    return ps
